@@ -33,14 +33,16 @@ func encName(name string) []byte {
 }
 
 type req struct {
-	ID      uint16
-	Opcode  int
-	Bcast   bool
-	Resp    bool   // response bit set
-	QName   string // question name ("" = no question)
-	RRName  string // resource record name ("" = none)
-	RRIP    net.IP
-	InAddl  bool // resource record in the additional section instead of the answer section
+	ID     uint16
+	Opcode int
+	Bcast  bool
+	NM     uint16   // further NM_FLAGS bits of the flags word (AA 0x400, TC 0x200, RD 0x100, RA 0x080, reserved 0x040 0x020)
+	Resp   bool     // response bit set
+	QName  string   // question name ("" = no question)
+	QNames []string // several questions (after QName)
+	RRName string   // resource record name ("" = none)
+	RRIP   net.IP
+	InAddl bool // resource record in the additional section instead of the answer section
 }
 
 func (r req) bytes() []byte {
@@ -51,9 +53,13 @@ func (r req) bytes() []byte {
 	if r.Resp {
 		flags |= 0x8000
 	}
+	flags |= r.NM & 0x07F0
 	m := &dns.Message{ID: r.ID, Flags: flags}
 	if r.QName != "" {
 		m.Questions = []dns.Question{{Name: nbName(r.QName), Type: 0x20, Class: 1}}
+	}
+	for _, q := range r.QNames {
+		m.Questions = append(m.Questions, dns.Question{Name: nbName(q), Type: 0x20, Class: 1})
 	}
 	if r.RRName != "" {
 		rr := dns.RR{Name: nbName(r.RRName), Type: 0x20, Class: 1, TTL: 3600, RData: []byte(r.RRIP.To4())}
@@ -124,37 +130,52 @@ func freePort(network string) int {
 	return c.LocalAddr().(*net.UDPAddr).Port
 }
 
+// newServer creates (does not start) a server of the given kind; the table is nil for kind "server".
+func newServer(kind, addr string) (server, error) {
+	s, _, err := newServerT(kind, addr)
+	return s, err
+}
+
+func newServerT(kind, addr string) (server, *nbtns.NetBIOSNameServer, error) {
+	switch kind {
+	case "server":
+		s, err := nbtns.NewServer(addr, false)
+		if err != nil {
+			return nil, nil, err
+		}
+		return s, nil, nil
+	case "udp":
+		table := nbtns.NewNetBIOSNameServer(false)
+		s, err := nbtns.NewUDPServer(addr, table)
+		if err != nil {
+			return nil, nil, err
+		}
+		return s, table, nil
+	}
+	table := nbtns.NewNetBIOSNameServer(false)
+	s, err := nbtns.NewTCPServer(addr, table)
+	if err != nil {
+		return nil, nil, err
+	}
+	return s, table, nil
+}
+
 // startServer picks a free loopback port and starts a server of the given kind
 // (retrying on the rare collision).
 func startServer(kind string) (*running, error) {
 	var lastErr error
 	for attempt := 0; attempt < 5; attempt++ {
 		r := &running{kind: kind}
-		switch kind {
-		case "server":
-			r.addr = fmt.Sprintf("127.0.0.1:%d", freePort("udp"))
-			s, err := nbtns.NewServer(r.addr, false)
-			if err != nil {
-				return nil, err
-			}
-			r.srv = s
-		case "udp":
-			r.addr = fmt.Sprintf("127.0.0.1:%d", freePort("udp"))
-			r.table = nbtns.NewNetBIOSNameServer(false)
-			s, err := nbtns.NewUDPServer(r.addr, r.table)
-			if err != nil {
-				return nil, err
-			}
-			r.srv = s
-		default:
-			r.addr = fmt.Sprintf("127.0.0.1:%d", freePort("tcp"))
-			r.table = nbtns.NewNetBIOSNameServer(false)
-			s, err := nbtns.NewTCPServer(r.addr, r.table)
-			if err != nil {
-				return nil, err
-			}
-			r.srv = s
+		network := "udp"
+		if kind == "tcp" {
+			network = "tcp"
 		}
+		r.addr = fmt.Sprintf("127.0.0.1:%d", freePort(network))
+		s, table, err := newServerT(kind, r.addr)
+		if err != nil {
+			return nil, err
+		}
+		r.srv, r.table = s, table
 		if err := r.srv.Start(); err != nil {
 			lastErr = err
 			continue
